@@ -341,6 +341,34 @@ def target_names():
         for label, want in (("", "Sy"), ("ct", "Sy_ct"), ("a_b", "Sy_a_b")):
             me = type("E", (), {"_label": label, "get_symbol": lambda s: "Sy"})()
             sess.check("post", [], _z3.BoolVal(ns["get_name"](me) == want), 0, label=f"Element.get_name[label={label!r}] == {want!r}")
+        # any non-empty label: the name is '<symbol>_<label>' whatever the label looks like -- every question the code asks about
+        # the label's content (startswith, in, isdigit, ...) is answered both ways and must not change the name, otherwise two
+        # different labels can give one name (names are unique only because labels are and the prefix is fixed)
+        asked = []
+
+        class Lab(str):
+            answer = True
+
+            def _q(self, *a, **k):
+                asked.append(1)
+                return Lab.answer
+            startswith = endswith = __contains__ = isdigit = isalpha = isalnum = isupper = islower = isidentifier = isnumeric = isdecimal = _q
+
+            def find(self, *a):
+                asked.append(1)
+                return 0 if Lab.answer else -1
+            index = rfind = find
+        for ans in (True, False):
+            Lab.answer = ans
+            lab = Lab("\u27e6label\u27e7")
+            me = type("E", (), {"_label": lab, "get_symbol": lambda s: "Sy"})()
+            try:
+                got = ns["get_name"](me)
+            except Exception as ex:       # noqa: BLE001
+                got = f"raised {type(ex).__name__}"
+            ob = sess.check("post", [], _z3.BoolVal(got == "Sy_\u27e6label\u27e7"), 0, label=f"Element.get_name[any non-empty label, content questions answered {ans}] == '<symbol>_<label>'")
+            if got != "Sy_\u27e6label\u27e7":
+                ob.detail = f"got {got!r}"
         ns = {}
         O.load("circuit/base", ["Connection.get_element_name"], ns)
         fn = ns["get_element_name"]
